@@ -70,7 +70,7 @@ def gen_t3(rng):
     """(T, rate, accel, jerk) in the firmware-valid domain; vertex families for the rate parabola."""
     for _ in range(200):
         T = pick_T(rng)
-        fam = rng.choice(["small", "zero_jerk", "vertex_inside", "vertex_edge", "uniform", "zero_first", "zero_first_two"])
+        fam = rng.choice(["small", "zero_jerk", "vertex_inside", "vertex_edge", "uniform", "zero_first", "zero_first_two", "equal_ends"])
         if fam == "small":
             jerk = rng.randint(-12, 12); accel = rng.randint(-60, 60); rate = rng.randint(-500, 500)
         elif fam == "zero_jerk":
@@ -79,6 +79,11 @@ def gen_t3(rng):
             # scale so that J*T^2/2 and A*T stay below 2^31
             jmax = max(1, min(M, (2 * M) // max(1, T * T)))
             jerk = rng.randint(-jmax, jmax) or rng.choice([-1, 1])
+            if fam == "equal_ends":
+                # the rate returns to its starting magnitude at the last tick (vertex exactly mid-move): r(1) = r(T) needs A = -J*T/2,
+                # r(1) = -r(T) needs 2*re = -(A*(T+1) + J*T*(T-1)/2)
+                if (jerk * T) % 2: jerk *= 2
+                accel = -(jerk * T) // 2 + rng.choice([0, 0, 0, 1, -1])
             if fam in ("vertex_inside", "vertex_edge"):
                 # vertex v = 1/2 - A/J  ->  A = J*(1/2 - v)
                 if fam == "vertex_edge":
@@ -92,6 +97,9 @@ def gen_t3(rng):
             re_v = rng.randint(-M // 2, M // 2)
             if rng.random() < 0.12:            # the end-of-move rate lands exactly on an edge of the signed 32-bit range
                 edge = rng.choice([-B, -B, M, -M, -B + 1]); re_v = edge - accel * T - jerk * T * (T - 1) // 2
+            if fam == "equal_ends" and rng.random() < 0.4:
+                tot = accel * (T + 1) + jerk * T * (T - 1) // 2
+                if tot % 2 == 0: re_v = -tot // 2
             if fam == "zero_first":
                 re_v = -accel
             if fam == "zero_first_two":
